@@ -260,7 +260,7 @@ theorem final_entry {s s' : State} {l : Label} {r : Ret} (hI : Inv s) (hE : ErrI
         have hcur : s.cur < s.blocks.length := c1 (by simp [hseq])
         have hdz : s.directPos = 0 := c3 (by simp [hseq])
         have hk : (blk s s.cur).kind = .sync := c2 (Or.inr hseq)
-        have hdata : (blk s s.cur).data = [] := (blk_wf hI.1 s.cur).2.2.2.2.2 hk
+        have hdata : (blk s s.cur).data = [] := (blk_wf hI.1 s.cur).2.2.2.2.2.1 hk
         split at hs
         · cases hs; simp [exitCode, hret, fatal, OK] at hx'
         · split at hs
